@@ -6,6 +6,8 @@ use std::io::Read;
 
 mod k2d;
 mod kmisc;
+mod kmesh;
+mod kseries;
 
 pub fn f(v: &Value) -> f64 {
     match v {
@@ -35,6 +37,10 @@ fn main() {
     std::io::stdin().read_to_string(&mut s).unwrap();
     let a: Value = serde_json::from_str(&s).expect("json args");
     let out = if let Some(v) = k2d::run(&kernel, &a) {
+        v
+    } else if let Some(v) = kmesh::run(&kernel, &a) {
+        v
+    } else if let Some(v) = kseries::run(&kernel, &a) {
         v
     } else if let Some(v) = kmisc::run(&kernel, &a) {
         v
